@@ -5,7 +5,7 @@ use anyhow::{anyhow, bail, Context, Result};
 use futures::{future::join_all, stream::FuturesUnordered, SinkExt, StreamExt};
 use log::{error, info};
 use quinn::{Connecting, Connection, Endpoint, IdleTimeout, VarInt};
-use selium_protocol::error_codes::INVALID_TOPIC_NAME;
+use selium_protocol::error_codes::{INVALID_TOPIC_NAME, TOPIC_KIND_MISMATCH};
 use selium_protocol::{error_codes, BiStream, ErrorPayload, Frame, TopicName};
 use selium_std::errors::SeliumError;
 use std::net::SocketAddr;
@@ -172,7 +172,7 @@ async fn handle_stream(
             use selium_protocol::error_codes::CLOUD_AUTH_FAILED;
 
             match do_cloud_auth(&_connection, topic, &topics).await {
-                Ok(_) => stream.send(Frame::Ok).await?,
+                Ok(_) => (),
                 Err(e) => {
                     debug!("Cloud authentication error: {e:?}");
 
@@ -198,7 +198,6 @@ async fn handle_stream(
                 stream.send(Frame::Error(payload)).await?;
                 return Ok(());
             }
-            stream.send(Frame::Ok).await?;
         }
 
         // Find the topic's channel, spawning the topic if it doesn't exist yet. The sender is
@@ -230,6 +229,19 @@ async fn handle_stream(
 
             ts.get(topic).unwrap().clone()
         };
+
+        // The messaging pattern of a topic is fixed by its first registration. Refuse a stream
+        // that asks for the other pattern, rather than accepting it and failing later.
+        if !tx.accepts(&frame) {
+            let payload = ErrorPayload {
+                code: TOPIC_KIND_MISMATCH,
+                message: "Topic is bound to a different messaging pattern".into(),
+            };
+            stream.send(Frame::Error(payload)).await?;
+            return Ok(());
+        }
+
+        stream.send(Frame::Ok).await?;
 
         match frame {
             Frame::RegisterPublisher(_) => {
